@@ -153,3 +153,5 @@ def check(ctx, rep):
     build_fragments_bindings(ctx, rep, 'C05b')
     add_checks(rep, rt.derived_table_checks(program), 'C05c', 'peptacular.chem.chem_constants')
     add_checks(rep, rt.sibling_table_checks(t), 'C05c')
+    from .common import memo_rule
+    memo_rule(ctx, rep, 'C05d', ('peptacular.fragmentation', 'peptacular.mass_calc'))
